@@ -66,6 +66,7 @@ def run(chk: Check, proj: Project) -> None:
     s5_merge_repeated(chk, proj, w)
     s6_pipeline(chk, proj, w)
     s10_parts_render_escaped(chk, proj)
+    s12_append_never_skips(chk, proj)
     from . import C07 as _C07
 
     chk.borrow("S11", "whether slot content given from Python is escaped is decided by THIS render's `escape_slots_content`: the wrapper that escapes a slot function's output is built per render - a process-wide memo keyed by the function object freezes the flag of the first render, so after one render with escaping off every later render of that function emits its raw output (shared with C07-S1-C)",
@@ -476,6 +477,30 @@ def s10_parts_render_escaped(chk: Check, proj: Project) -> None:
                "the part is what the wrapped node's render() returns" if ok else
                f"`{short(raw[0]) if raw else short(r)}` takes the value of a template variable without the escaping VariableNode.render applies, inside a NodeList whose joined result is marked safe: `{{% html_attrs title=\"Hello {{{{ v }}}}\" %}}` with v = '\" onmouseover=\"x' emits the attribute break-out")
     chk.floor("S10", n, 1)
+
+
+def s12_append_never_skips(chk: Check, proj: Project) -> None:
+    chk.rule("S12", "every extra keyword value given for an attribute is appended, separated by one space: the merge loop of append_attributes has no branch that skips a pair because of what the value IS (already present as a token, empty, equal to the last one) - `data-steps=\"1 2 3\"` plus `data-steps=\"1\"` is `1 2 3 1`")
+    am, f = proj.func("attributes", "append_attributes")
+    chk.analysed(fkey(am, f))
+    loops = [x for x in ast.walk(f) if isinstance(x, ast.For)]
+    if not loops:
+        chk.undecided("S12", "attributes:append_attributes:every-pair-is-merged", am.loc(f), "merge loop not found")
+        return
+    lp = loops[0]
+    vals = {t.id for t in ast.walk(lp.target) if isinstance(t, ast.Name)}
+    from ..cfg import flatten_conj as _fc, path_conditions as _pc
+
+    skips = [x for x in ast.walk(lp) if isinstance(x, (ast.Continue, ast.Break))]
+    # the two arms (first occurrence / repeated key) are decided by the KEY alone
+    val = list(vals)[-1] if vals else "value"
+    tgt = lp.target
+    vname = tgt.elts[1].id if isinstance(tgt, ast.Tuple) and len(tgt.elts) == 2 and isinstance(tgt.elts[1], ast.Name) else val
+    value_tests = [e for st in ast.walk(lp) if isinstance(st, ast.If) for e in ast.walk(st.test) if isinstance(e, ast.Name) and e.id == vname]
+    bad = skips[0] if skips else (value_tests[0] if value_tests else None)
+    chk.ob("S12", "attributes:append_attributes:every-pair-is-merged", am.loc(bad) if bad is not None else am.loc(lp), bad is None,
+           "no pair is skipped and no branch looks at the value" if bad is None else
+           f"`{short(enclosing_stmt(bad))}` lets the merge depend on the value: a value that equals an existing token of the attribute is dropped instead of appended (`aria-labelledby=\"a b\"` + `aria-labelledby=\"a\"` stays `a b`)")
 
 
 MANIFEST = {
